@@ -101,3 +101,33 @@ Definition filter_H (N : nat) (H : nat -> C) (x : nat -> R) (n : nat) : R :=
 
 (* responses used in the theorems *)
 Definition delay_response (tau : R) (f : R) : C := cis (- 2 * PI * f * tau).
+
+(* ---------------------------------------------------------------- FunctionSignal buffers
+   FunctionSignal._full_times / _value_window / values (one function):
+     n = int(buffer/dt); if buffer % dt: n += 1                       (leading and trailing alike)
+     full = linspace(t0 - nb*dt, t0, nb, endpoint=False) ++ times ++ linspace(tl, tl + na*dt, na+1)[1:]
+     values = _apply_filters(func(full), filters)[nb : nb+len(times)]
+   The buffer grid continues the time grid with the same step: t0 - j*dt (j = nb..1), tl + j*dt (j = 1..na). *)
+Definition n_buffer (buffer dt : R) : nat :=
+  let q := Int_part (buffer / dt) in
+  let r := (buffer - IZR q * dt)%R in                    (* buffer % dt *)
+  Z.to_nat (if Req_EM_T r 0 then q else (q + 1)%Z).
+
+(* np.linspace(a, b, n, endpoint=False)[i] = i*((b-a)/n) + a;  np.linspace(a, b, n+1)[i] = i*((b-a)/n) + a *)
+Definition full_times (times : list R) (lead trail dt : R) : list R :=
+  let nb := n_buffer lead dt in
+  let na := n_buffer trail dt in
+  let t0 := nth 0 times 0%R in
+  let tl := last times 0%R in
+  let tmin := (t0 - INR nb * dt)%R in
+  let tmax := (tl + INR na * dt)%R in
+  map (fun i => (INR i * ((t0 - tmin) / INR nb) + tmin)%R) (seq 0 nb)
+  ++ times ++
+  map (fun i => (INR (i + 1) * ((tmax - tl) / INR na) + tl)%R) (seq 0 na).
+
+(* values of a FunctionSignal with one function, given that function's values on full_times *)
+Definition function_signal_values (times : list R) (lead trail : R) (fvals : list R) (fs : list ((R -> C) * bool)) : list R :=
+  let dt := sig_dt times in
+  let nb := n_buffer lead dt in
+  let out := match fs with [] => fvals | _ => apply_filters dt fvals fs end in
+  firstn (length times) (skipn nb out).
